@@ -54,5 +54,75 @@ pub fn handle_smembers(storage: &mut EngineModel, db: usize, parts: &[RespFrame]
 //@@ body
 //@@ end
 
+// ======================= SPOP key [count] =========================
+/// the set stored at (db, k), absent = empty
+pub open spec fn set_left(ds: DS, db: int, k: Seq<u8>) -> Set<Vec<u8>> { match ds_get(ds, db, k) { Some(DV::Set(s)) => s, _ => Set::empty() } }
+pub open spec fn seq_members(p: Seq<Seq<u8>>) -> Set<Vec<u8>> { p.map_values(|b: Seq<u8>| key_of(b)).to_set() }
+/// SPOP's effect for a key that holds a set or nothing: WHICH members go is the engine's random choice — some duplicate-free selection of
+/// min(count, cardinality) members — they leave the set, and nothing else in the dataset changes
+pub open spec fn spop_sel(ds0: DS, ds1: DS, db: int, k: Seq<u8>, count: usize, p: Seq<Seq<u8>>) -> bool {
+    match ds_get(ds0, db, k) {
+        None => p.len() == 0 && ds1 == ds0,
+        Some(DV::Set(s)) => p.no_duplicates() && (forall|i: int| 0 <= i < p.len() ==> s.contains(key_of(#[trigger] p[i])))
+            && p.len() == (if count <= s.len() { count as int } else { s.len() as int })
+            && (forall|d: int, kk: Seq<u8>| (d != db || kk != k) ==> #[trigger] ds_get(ds1, d, kk) == ds_get(ds0, d, kk))
+            && set_left(ds1, db, k) =~= s.difference(seq_members(p)),
+        Some(_) => false,
+    }
+}
+impl EngineModel {
+    /// ASSUMED CONTRACT (engine.rs StorageEngine::spop; not under contract itself: it shuffles with a thread-local RNG)
+    #[verifier::external_body]
+    pub fn spop(&mut self, db: usize, key: Vec<u8>, count: usize) -> (r: Result<Vec<Vec<u8>>>)
+        ensures match ds_get(old(self).ds@, db as int, key@) {
+            Some(DV::Set(_)) | None => r matches Ok(v) && spop_sel(old(self).ds@, final(self).ds@, db as int, key@, count, v@.map_values(|m: Vec<u8>| m@)),
+            Some(_) => (r matches Err(e) && e == wt()) && final(self).ds@ == old(self).ds@,
+        },
+    { unimplemented!() }
+}
+/// `members.into_iter().next()` (RXPR site): the first popped member, if any
+#[verifier::external_body]
+pub fn verif_first_member(v: Vec<Vec<u8>>) -> (r: Option<Vec<u8>>)
+    ensures v@.len() == 0 ==> r is None, v@.len() > 0 ==> (r matches Some(m) && m@ == v@[0]@),
+{ unimplemented!() }
+/// the members a reply names: the one bulk string (or none, for nil) of the single-member form, the elements of the array form
+pub open spec fn popped_of(f: RespFrame, array_form: bool) -> Seq<Seq<u8>> {
+    if array_form { match f { RespFrame::Array(Some(v)) => Seq::new(v@.len(), |i: int| bulk_reply(v@[i])->Some_0->Some_0), _ => Seq::empty() } }
+    else { match f { RespFrame::BulkString(Some(b)) => seq![b@], _ => Seq::empty() } }
+}
+pub open spec fn spop_reply_shape(f: RespFrame, array_form: bool) -> bool {
+    if array_form { f matches RespFrame::Array(Some(v)) && forall|i: int| 0 <= i < v@.len() ==> (bulk_reply(#[trigger] v@[i]) matches Some(Some(_))) }
+    else { f is BulkString }
+}
+//@@ unit handle_spop fn src/storage/commands/sets.rs handle_spop
+//@@   params drop "storage: &Arc<StorageEngine>" add "storage: &mut EngineModel"
+//@@   rewrite R3
+//@@   rewrite RCALL parse "String::from_utf8_lossy(bytes)" verif_cow_parse
+//@@   rewrite RXPR "members.into_iter().next()" "verif_first_member(members)"
+//@@   rewrite RXPR "members.into_iter() .map(|m| RespFrame::from_bytes(m)) .collect()" "verif_bulk_frames(members)"
+//@@   at "if" #1
+//@@|     let ghost mv = members@.map_values(|m: Vec<u8>| m@);
+//@@   at "match members.into_iter().next()"
+//@@|     proof { assert(mv.len() <= 1); }
+//@@   rewrite RT "Some(member) => Ok(RespFrame::from_bytes(member))," "Some(member) => { let f0 = RespFrame::from_bytes(member); proof { assert(popped_of(f0, false) =~= mv); } Ok(f0) },"
+//@@   rewrite RT "None => Ok(RespFrame::null_bulk())," "None => { let f0 = RespFrame::null_bulk(); proof { assert(popped_of(f0, false) =~= mv); } Ok(f0) },"
+//@@   at "Ok(RespFrame::Array(Some(frames)))"
+//@@|     proof { assert(popped_of(RespFrame::Array(Some(frames)), true) =~= mv); }
+pub fn handle_spop(storage: &mut EngineModel, db: usize, parts: &[RespFrame]) -> (r: Result<RespFrame>)
+    ensures
+        (parts@.len() < 2 || parts@.len() > 3 || arg(parts@, 1) is None || (parts@.len() == 3 && num_arg::<usize>(parts@, 2) is None)) ==> cmd_refused(r, old(storage).ds@, final(storage).ds@),
+        (parts@.len() == 2 || (parts@.len() == 3 && num_arg::<usize>(parts@, 2) is Some)) && arg(parts@, 1) is Some ==> ({
+            let k = arg(parts@, 1)->Some_0;
+            let count = if parts@.len() == 3 { num_arg::<usize>(parts@, 2)->Some_0 } else { 1usize };
+            // C03: the reply FORM follows the command's form — SPOP key answers one bulk string (nil when nothing is there), SPOP key count
+            // answers an array, also for count 1 and for a missing key — and the members it names are exactly the ones that left the set
+            match ds_get(old(storage).ds@, db as int, k) {
+                Some(DV::Set(_)) | None => r matches Ok(f) && spop_reply_shape(f, parts@.len() == 3) && spop_sel(old(storage).ds@, final(storage).ds@, db as int, k, count, popped_of(f, parts@.len() == 3)),
+                Some(_) => (r matches Ok(f) && f is Error) && final(storage).ds@ == old(storage).ds@,
+            }
+        }),
+//@@ body
+//@@ end
+
 } // verus!
 fn main() {}
